@@ -172,7 +172,11 @@ class Rig:
         res["wire_bytes"] = self.wire_len() - w0
         return res
 
-    def probe(self, where: str) -> List[Dict[str, Any]]:
+    def queued_types(self) -> List[int]:
+        frames, _rest, _prob = P.parse_stream(bytes(self.c._sock.rx), self.tc)
+        return [f.msg_type for f in frames if f.src_mod_id == 21 and f.msg_type in (A, B, C, D)]
+
+    def probe(self, where: str, queued: Optional[List[int]] = None) -> List[Dict[str, Any]]:
         """publisher sends A,B,C,D; compare arrivals with the client's own view"""
         probs = []
         c = self.c
@@ -180,6 +184,7 @@ class Rig:
         # frames forwarded before the change took effect are still queued: the API must not hand out a type the client
         # no longer reports as subscribed (unsubscribed or paused)
         claimed = c.subscribed_types
+        came_out: List[int] = []
         for _ in range(12):
             if not c._sock.rx:
                 break
@@ -188,9 +193,17 @@ class Rig:
             except Exception as e:
                 probs.append({"kind": "read_message-raised", "where": where + " (queued)", "exc": f"{type(e).__name__}: {e}"})
                 break
+            if m is not None and m.header.src_mod_id == 21:
+                came_out.append(m.header.msg_type)
             if m is not None and m.header.src_mod_id == 21 and claimed != {ALL} and m.header.msg_type not in claimed:
                 probs.append({"kind": "queued-frame-of-dropped-type-returned", "where": where, "type": NAMES.get(m.header.msg_type, m.header.msg_type),
                               "paused": m.header.msg_type in c.paused_subscribed_types})
+        if queued is not None:
+            # what was delivered to this client before the operation and is still subscribed afterwards comes out exactly once, in order
+            want = [t for t in queued if claimed == {ALL} or t in claimed]
+            if came_out != want:
+                probs.append({"kind": "queued-frames-of-kept-types-lost-or-repeated", "where": where, "queued": [NAMES[t] for t in queued],
+                              "expected_from_read_message": [NAMES[t] for t in want], "got": [NAMES.get(t, t) for t in came_out]})
         self.drain_client()
         if self.twin is not None:
             self.twin.drain()
@@ -262,9 +275,12 @@ def run_history(tc: bool, hist: Sequence[Tuple], last_only: bool = True) -> Dict
     try:
       try:
           res = None
+          queued = None
           for i, op in enumerate(hist):
               if i == len(hist) - 1:
                   rig.inflight()
+                  if not op[0].endswith("_context") and op[0] not in ("reconnect_after_loss", "disconnect_connect"):
+                      queued = rig.queued_types()
               res = rig.apply(op)
               if i < len(hist) - 1 and not last_only:
                   probs += rig.probe(f"after op {i}")
@@ -291,7 +307,7 @@ def run_history(tc: bool, hist: Sequence[Tuple], last_only: bool = True) -> Dict
                   probs += res.get("inside_problems", [])
                   if (after[0], after[1]) != (before[0], before[1]) or after[2] != before[2]:
                       probs.append({"kind": "context-did-not-restore", "before": _names(before), "after": _names(after)})
-              probs += rig.probe("after operation")
+              probs += rig.probe("after operation", queued=queued)
           key = (rig.client_state(), rig.manager_state())
       except Exception as e:
         # anything unexpected while the manager is dead is the manager's death, not a harness failure
